@@ -33,10 +33,16 @@ import (
 	"time"
 )
 
-const (
-	repoDir  = "/repo"
-	verifDir = "/verif"
-)
+const repoDir = "/repo"
+
+// verifDir is /verif unless VERIF_DIR points at a snapshot of it (background
+// experiments started with `vp run`); registered checks always run in /verif.
+var verifDir = func() string {
+	if d := os.Getenv("VERIF_DIR"); d != "" {
+		return d
+	}
+	return "/verif"
+}()
 
 type tierCfg struct {
 	cases   uint64
